@@ -291,7 +291,7 @@ pub fn run(ctx: &Ctx) {
             o
         });
     }
-    let per = ctx.tier.scale(20000, 10);
+    let per = ctx.tier.scale(60000, 8);
     ctx.search("random-bytes", 16, per, &|| (any::<u64>(), 0usize..400).prop_map(|(seed, len)| BlobCase { base: None, seed, muts: 0, fix_crc: false, len }), check_blob);
     ctx.search("mutations", 16, per * 4, &|| (0u64..24, any::<u64>(), 1usize..=4, prop_oneof![3 => Just(true), 1 => Just(false)]).prop_map(|(s, seed, muts, fix_crc)| BlobCase { base: Some(small_stream(s)), seed, muts, fix_crc, len: 0 }), check_blob);
     if ctx.tier == Tier::Thorough {
